@@ -203,7 +203,8 @@ def partition_rule(ctx, P, rs, RULE):
                             iv = next(v for v in ivars if v in ((e["lo_poly"].symbols() if e["lo_poly"] is not None else set()) | (e["hi_poly"].symbols() if e["hi_poly"] is not None else set())))
                             stop = int(eval_poly(ivars[iv]["stop_poly"], env, defs))
                             start = int(eval_poly(ivars[iv]["start_poly"], env, defs)) if ivars[iv]["start_poly"] is not None and ivars[iv]["nargs"] >= 2 else 0
-                            for i in range(start, stop):
+                            step = int(eval_poly(ivars[iv]["step_poly"], env, defs)) if ivars[iv].get("step_poly") is not None else 1
+                            for i in range(start, stop, step):
                                 env2 = dict(env)
                                 env2[iv] = i
                                 lo = int(eval_poly(e["lo_poly"], env2, defs)) if e["lo_poly"] is not None else 0
